@@ -242,8 +242,8 @@ def string_dispatch(ctx, res):
             active.add("minlen")
         if not mxinf:
             active.add("maxlen")
-        key = (f"String(regex={'set' if rx else 'unset'}, "
-               f"minlen={'0' if mn0 else '>0'}, "
+        key = (f"String(regex={'set' if rx else 'unset'},"
+               f"minlen={'0' if mn0 else '>0'},"
                f"maxlen={'default' if mxinf else 'set'})")
         if sel not in enforced:
             res.violation(f"String._init:{key}:selected", mod.loc(init),
